@@ -143,7 +143,7 @@ class Scn:
             toks.append('o:' + (o if not o.startswith('R') else 'R%s~%s' % (o[1:], pcre[o[1:]])))
         toks += ['p:' + ','.join(str(i) for i in p) for p in self.pipes]
         toks += [('m:%d' % m[0] if m[0] >= 0 else 'a:%d' % (-m[0] - 1)) + ':%d:%d:%s' % tuple(m[1:4])
-                 + (':%d' % m[4] if len(m) > 4 and m[4] else '') for m in self.msgs]
+                 + ((':%d:%d' % (m[4], m[5])) if len(m) > 5 and m[5] else (':%d' % m[4] if len(m) > 4 and m[4] else '')) for m in self.msgs]
         return ' '.join(toks)
 
     def kinds(self):
@@ -404,6 +404,16 @@ def run():
                 scns.append(Scn(d['objs'], d['pipes'], [tuple(m) for m in d['msgs']])); corpus += 1
             except Exception:
                 pass
+    # wall-clock pauses between messages: none of the four rules mentions time, so a run of equal texts stays collapsed,
+    # numbering stays consecutive and verdicts stay the same however long the gaps are (6th message field = pause in
+    # ms before the message is constructed; the model ignores it).  Quick: gaps of 1.2 s; thorough: 5.6 s and 11 s.
+    a_, b_ = tok_text('a'), tok_text('b')
+    for gaps in ([1200] if not thorough else [1200, 5600]):
+        # one pause per scenario (every evaluation of it, also while shrinking, costs that pause once)
+        scns.append(Scn(['N', 'D', 'V0'], [[0, 1, 2], [1]],
+                        [(0, 4, 0, a_, 0, 0), (0, 4, 0, a_, 0, gaps), (0, 0, 0, a_, 1, 0), (1, 4, 0, a_, 0, 0), (0, 4, 0, b_, 0, 0), (0, 2, 0, b_, 2, 0)]))
+        scns.append(Scn(['D'], [[0]], [(0, 4, 0, tok_text(''), 0, gaps), (0, 4, 0, tok_text(''), 0, 0), (0, 4, 0, a_, 0, 0)]))
+    hist['timed_scenarios'] = len(scns) - corpus
     nrand = 12000 if thorough else 4000
     for _ in range(nrand):
         scns.append(gen_scenario(chk.rng, hist, thorough))
